@@ -6,6 +6,7 @@ pub mod eval;
 pub mod findings;
 pub mod dgen;
 pub mod ir;
+pub mod minimize;
 pub mod print;
 pub mod sim;
 pub mod stim;
@@ -15,4 +16,5 @@ pub use dgen::{ExprInfo, shape, GenCfg, Generated, constify, gen_design, gen_exp
 pub use ir::*;
 pub use print::print_design;
 pub use sim::{Analyzed, PortSpec, Rejected, Sample, StimStep, Stimulus, Trace, config_label, engine_configs, run_trace};
-pub use stim::{RefTrace, gen_stimulus, port_specs, reference_trace};
+pub use sim::run_deep;
+pub use stim::{DeepVar, RefTrace, deep_vars, gen_stimulus, port_specs, reference_deep, reference_trace};
